@@ -125,6 +125,10 @@ fn emit_xpub_plans(out: &mut String) {
         (format!("tr({}/0/5,{{pk({}/1/2),pk({}/0/9)}})", xp[2], xp[0], xp[1]), Box::new(|s| s & 7 != 0)),
         (format!("sh(multi(2,{}/0/4,{}/0/4,{}/1/4))", xp[0], xp[1], xp[2]), Box::new(|s| (s & 7).count_ones() >= 2)),
         (format!("wsh(thresh(2,pk({}/1/0),s:pk({}/1/0),s:pk({}/0/0)))", xp[0], xp[1], xp[2]), Box::new(|s| (s & 7).count_ones() >= 2)),
+        // a key TWO steps below what the asset keys can derive is not signable
+        (format!("wsh(pk({}/0/7/3))", xp[0]), Box::new(|_s| false)),
+        (format!("wsh(or_d(pk({}/0/7/3),pk({}/0/2)))", xp[0], xp[1]), Box::new(|s| s & 2 != 0)),
+        (format!("tr({}/1/1/1,pk({}/0/1))", xp[2], xp[0]), Box::new(|s| s & 1 != 0)),
     ];
     let forms: [(&str, Vec<&str>); 3] =
         [("multipath", vec!["/<0;1>/*"]), ("ranged", vec!["/0/*", "/1/*"]), ("three-path", vec!["/<0;1;2>/*"])];
